@@ -41,6 +41,34 @@ class Num:
         return int(a)
 
 
+class NumWide(Num):
+    """abstract value a -> the a-th entry of an ascending table over the whole numeric range: infinities, integers beyond the range
+    of a float, a float next to the largest one, a fraction, zero (ints and floats mixed, as the property quantifies)"""
+    TABLES = {8: [float("-inf"), -(10 ** 400), -1.5, 0, 2 ** 70, 1.7e308, 10 ** 400, float("inf")],
+              6: [float("-inf"), -(10 ** 400), 0, 1.7e308, 10 ** 400, float("inf")],
+              5: [-(10 ** 400), 0.5, 2 ** 70, 10 ** 400, float("inf")]}
+
+    def __init__(self, maxv):
+        Num.__init__(self, 0, maxv)
+        size = min(k for k in NumWide.TABLES if k >= maxv + 1) if maxv + 1 <= 8 else None
+        if size is None:
+            raise tlc.MachineryError("NumWide: no table for MaxV=%d" % maxv)
+        t = NumWide.TABLES[size]
+        # keep both ends of the range when the table is longer than needed
+        self.table = t if len(t) == maxv + 1 else t[:maxv] + t[-1:]
+
+    def conc(self, a, salt=0):
+        return self.table[a]
+
+    def abst(self, x):
+        if isinstance(x, bool) or not isinstance(x, (int, float)):
+            raise Unexpected("a non-numeric element %r came out" % (x,))
+        for i, v in enumerate(self.table):
+            if v == x:
+                return i
+        raise Unexpected("element %r was never put in" % (x,))
+
+
 FOREIGN = {1: "a", 2: None, 3: float("nan")}      # a str, None, and NaN: none of them can be ordered against numbers
 
 
@@ -299,6 +327,11 @@ def run(ctx):
         g, _ = graphwalk.emit_graph(SMAP, model.cfg_text(mc, view="View", action_constraint="Emit"), ctx, "SortedMap")
         st = graphwalk.walk(g, MapAdapter(m, num2), ctx, "SortedMap", sig_fn=sig_fn, paths_per_state=2, history_ops=("clear", "popitem"))
         ctx.note("walk %s" % st)
+        if mask == 0x5a5a:
+            # the same graphs once more over the whole numeric range (infinities, integers no float can hold)
+            g1, _ = graphwalk.emit_graph(SSET, model.cfg_text(sc, view="View", action_constraint="Emit"), ctx, "SortedSet")
+            st = graphwalk.walk(g1, SetAdapter(m, NumWide(num.maxv)), ctx, "SortedSet(wide range)", sig_fn=sig_fn)
+            st = graphwalk.walk(g, MapAdapter(m, NumWide(num2.maxv)), ctx, "SortedMap(wide range)", sig_fn=sig_fn)
     ctx.exhaustive = True
     rnd = random.Random(ctx.seed * 7919 + 9)
     num = Num(rnd.getrandbits(16), 11)
